@@ -93,6 +93,9 @@ func Point(label string) {
 	if e == nil || e.cur == nil { // outside an execution, or during its sequential setup phase
 		return
 	}
+	if e.aborting { // a deferred call of a thread that is being unwound
+		panic(abortSentinel{})
+	}
 	t := e.cur
 	t.label = label
 	t.pred = nil
@@ -112,6 +115,9 @@ func Block(label string, pred func() bool) {
 			panic("sched.Block outside an execution would block forever: " + label)
 		}
 		return
+	}
+	if e.aborting {
+		panic(abortSentinel{})
 	}
 	t := e.cur
 	t.label = label
